@@ -251,6 +251,9 @@ def worker(part, acc):
 
 
 def run(ctx):
+    from ..seams import validate as _validate_seams
+
+    seam_report = _validate_seams(PROP)  # real random sources under a recorder: every API reached must be modelled (else exit 2)
     un = list(undirected_items(ctx.tier))
     di = list(directed_items(ctx.tier))
     items = un + di
@@ -269,6 +272,7 @@ def run(ctx):
     d = di[(ctx.seed * 7 + 1) % len(di)][1]
     ctx.sample({"directed": {"edges": [repr(e) for e in d[0]], "max_effective_proposals": d[1]}})
     cov = {
+        "seam_validation": seam_report,
         "states": len(oc), "transitions": ev, "traces_validated_against_impl": ev, "evaluations": ev, "distinct_nontrivial": len(nt), "exhaustive": True,
         "pruned_at_redraw_budget": ctx.counts.get("undirected-pruned-redraw-budget", 0),
         "rule": "undirected: every input with 2-3 hyperedges of size 2-3 over 4 (5) nodes x n_steps 0..2 (3) x label edge/stub x detailed T/F x size/order "
